@@ -16,6 +16,10 @@ CONSTANTS
   Defect = "remove-unguarded"
   AllowBadConfig = FALSE
   Emit = FALSE
+  Faults <- NoFaults
+  QS <- NoQ
+  Ops <- AllOps
+  Big = FALSE
 VIEW MCView
 INVARIANTS NoNegativeCounter
 CHECK_DEADLOCK FALSE
